@@ -85,7 +85,7 @@ func (p *parser) Parse(objDump string) ([]Syscall, error) {
 
 		// Find the start of a function.
 		if strings.HasPrefix(line, functionMarker) {
-			function = line[5:]
+			function = strings.TrimPrefix(line[len(functionMarker):], " ")
 			instructions = instructions[:0]
 			continue
 		}
